@@ -62,6 +62,7 @@ def job_history(args):
     slots = {}
     outs = []
     shared_kwargs = {}
+    shared_expect = {}
     probes = {"nonempty_mapping": 0, "crash_fired": 0, "crash_in_generate_code": 0}
     for op in args["ops"]:
         kind = op["op"]
@@ -108,10 +109,14 @@ def job_history(args):
                 # time); a pristine process builds it fresh.
                 from ..pipeline import gen_kwargs
                 key = op["kw_id"]
+                fresh = gen_kwargs(dict(op["options"], framework="attrs"))
                 if key not in shared_kwargs:
                     # one dict for every framework, 'meta' included when set: generators that do not accept an option
                     # raise TypeError (an outcome like any other, the same in a pristine process)
-                    shared_kwargs[key] = gen_kwargs(dict(op["options"], framework="attrs"))
+                    shared_kwargs[key] = fresh
+                    shared_expect[key] = dict(fresh)
+                elif shared_expect[key] != fresh:
+                    raise RuntimeError("harness: operations sharing a kwargs object must have identical options")
                 kwargs_obj = shared_kwargs[key]
 
             def go(op=op, slot=slot, forced=forced, kwargs_obj=kwargs_obj):
@@ -245,7 +250,8 @@ def make_history(seed, i, max_ops=4):
         c = cli_op()
         c["spec"]["argv"] = ["-m", "P", "{DIR}/p.json"] + cli_argv
         r = render_op(s_new)
-        r["options"]["max_literals"] = rng.choice([10, 20, 50])
+        r.pop("kw_id", None)  # its options differ from the shared ones: it must not use the shared kwargs object
+        r["options"] = dict(r["options"], max_literals=rng.choice([10, 20, 50]))
         ops += [c, gen_op(s_new), r]
         generated.append(s_new)
     if twin and n_ops >= 4:
